@@ -64,6 +64,8 @@ func runC12(c *Ctx) {
 	}
 	ruleInputImmutable(c, "R-INPUT-IMMUTABLE", fns)
 	ruleCounterWidth(c, fns)
+	ruleNoIfaceEq(c, fns)
+	ruleSizeGuard(c, "slice")
 	ruleLCSDiagonal(c)
 
 	// ---- R-LEAN-AGREE
